@@ -5,7 +5,9 @@ import check_c02 as C2
 
 VALUES = ['"a"', '"b c"', '""', '"1"', "1", "2", "-3", "2.5", "2.50", "true", "false", '"true"', "null", '"null"', '"é"', '"q\\"uote"',
           # an integer and the float of the same value are different enum items (2 is not 2.0): both may stand in one list
-          "1.0", "2.00", "-3.0", "0", "0.0", "-0.0", "10", "10.0"]
+          "1.0", "2.00", "-3.0", "0", "0.0", "-0.0", "10", "10.0",
+          # strings whose only escape sits at the very end / the very start of the literal
+          '"12\\""', '"line\\n"', '"dir\\\\"', '"\\tx"', '"\\/"']
 KINDS = {"s": "string", "i": "integer", "f": "float", "b": "boolean", "n": "null"}
 
 
